@@ -327,6 +327,7 @@ func extF16ToF32Spec(fr *frame, a []value) value {
 
 func extPoolGet(fr *frame, args []value) value {
 	p := args[0].(*value)
+	schedPoint(fr, "pool.get")
 	if l := pools[p]; len(l) > 0 {
 		v := l[len(l)-1]
 		pools[p] = l[:len(l)-1]
@@ -343,6 +344,7 @@ func extPoolGet(fr *frame, args []value) value {
 func extPoolPut(fr *frame, args []value) value {
 	p := args[0].(*value)
 	pools[p] = append(pools[p], args[1])
+	schedPoint(fr, "pool.put")
 	return nil
 }
 
